@@ -1717,6 +1717,20 @@ func @F(n int) int {
 	return c
 }`, Drives: []Drive{fn("int", "@F", "3")}},
 
+	{Name: "EtaLeavesImportUnused", Props: []string{"C07", "C11", "C13"}, Imports: `"bufio"; "io"; "strings"`, Src: `
+// the signature of a reducible closure is the ONLY mention of package io in the file: after the reduction the
+// import must go too (import clean-up has to see the file as it is written)
+func @F(s string) int {
+	mk := func(r io.Reader) *bufio.Reader { return bufio.NewReader(r) }
+	b, _ := mk(strings.NewReader(s)).ReadString('l')
+	return len(b)
+}
+GEN(int) @G(s string) {
+	YIELD(@F(s))
+	YIELD(@F(s + s))
+	RETURN
+}`, Drives: []Drive{gen("int", "@G", `"hello"`), fn("int", "@F", `"world"`)}},
+
 	{Name: "EtaPackageQualifiedCallees", Props: []string{"C13", "C07", "C11"}, Imports: `"slices"; "strings"; "sort"`, Src: `
 // closures that only forward to a function of an imported package: a generic one with inferred type
 // arguments is not a value (the closure must stay), a plain one and an instantiated one may be reduced
